@@ -463,6 +463,6 @@ func kindTag(k string) string {
 	return "EVK"
 }
 
-var propEVK = h.NewProp("TestPropCollectiveEvaluationKey", h.Budget{Quick: 1600, Thorough: 30000}, genEVK, runEVK)
+var propEVK = h.NewProp("TestPropCollectiveEvaluationKey", h.Budget{Quick: 1100, Thorough: 20000}, genEVK, runEVK)
 
 func TestPropCollectiveEvaluationKey(t *testing.T) { propEVK.Check(t) }
